@@ -329,9 +329,17 @@ Definition parse_document (s : bytes) : presult doc :=
 Definition lift_outcome {A} (o : outcome A) : presult A :=
   match o with Done a => POk a | Failed e at_ => PErr e (Some at_) | Panicked p => PPanic p end.
 
-(* parse_value: value.parse, decor cleared, despanned (despan modelled in Model/Despan.v) *)
-Definition parse_value_raw (s : bytes) : presult value := lift_outcome (parse_all value_ s).
-(* parse_key: simple_key.parse *)
-Definition parse_key (s : bytes) : presult (raw * bytes) := lift_outcome (parse_all simple_key s).
-(* parse_key_path: key.parse *)
-Definition parse_key_path (s : bytes) : presult (list key) := lift_outcome (parse_all key_ s).
+(* mod.rs: end_of_input — eof.void().context(Expected(Description("end of input"))): what may
+   follow a stand-alone key or value.  `Parser::parse` (parse_all) checks eof as well, but its
+   error has no context and renders as an empty message. *)
+Definition end_of_input : parser unit := context eof.
+(* winnow::combinator::terminated(p, end_of_input), as the three stand-alone entry points use it *)
+Definition terminated_eoi {A} (p : parser A) : parser A := a <- p ;; end_of_input ;;; ret a.
+
+(* parse_value: terminated(value, end_of_input).parse, decor cleared, despanned (despan modelled
+   in Model/Despan.v) *)
+Definition parse_value_raw (s : bytes) : presult value := lift_outcome (parse_all (terminated_eoi value_) s).
+(* parse_key: terminated(simple_key, end_of_input).parse *)
+Definition parse_key (s : bytes) : presult (raw * bytes) := lift_outcome (parse_all (terminated_eoi simple_key) s).
+(* parse_key_path: terminated(key, end_of_input).parse *)
+Definition parse_key_path (s : bytes) : presult (list key) := lift_outcome (parse_all (terminated_eoi key_) s).
